@@ -292,6 +292,23 @@ def run(ck):
             for oi, o in enumerate(OPTSEQ):
                 ck.case(fp=(tag, text, oi), nontrivial=len(X) >= 2)
                 roundtrip(ck, X, o, 0, {'text': text, 'variant': tag}, tag + ' ' + text)
+        # the same text parsed again after an earlier result was edited in place (end points through the Path interface, a control point directly)
+        import copy
+        ref = copy.deepcopy(list(P))
+        M = sp.parse_path(text)
+        try:
+            M.end = M.end + (3 + 1j)
+            M.start = M.start - 2j
+            if hasattr(M[0], 'control1'):
+                M[0].control1 = M[0].control1 + 1
+        except Exception:      # noqa
+            pass
+        N = sp.parse_path(text)
+        ck.case(fp=('reparse', text), nontrivial=True)
+        if list(N) != ref or N.d() != sp.Path(*ref).d():
+            ck.disagree(key='parse_path/result-depends-on-an-earlier-result', site='svgpathtools/parser.py:parse_path',
+                        what='parse_path(%r) after an earlier result of the same text was edited in place gives %r, first time %r' % (text, N, ref),
+                        case={'text': text, 'variant': 'reparse'}, expected=repr(ref), observed=repr(N), driver='parsed-origin')
         ck.sample('parsed-origin', {'text': text, 'd(z)': P.d(use_closed_attrib=True)})
     pd = 'SPECIFICATION Spec\nCONSTANTS MaxCmds = %d\n MaxRep = %d\nINVARIANT Dump\n'
     if quick:
